@@ -24,6 +24,10 @@ but no group of the batch is `running` before update 1 is committed).
 that has a child in an uncommitted update; `commitUpdate b u` only when `u = 1` or update 1 is committed, and the jobs in
 `u`'s reserved id range belong to `u` — C08, not enforced by the code), `UncommittedInvisible` holds after every history.
 
+Also proved under the same hypothesis: `uncommitted_rows_frozen` (no transaction touches such a row: no trigger fires for it),
+`uncommitted_complete_no_effect` (it is never tallied and never completes a group or the batch),
+`uncommitted_schedule_no_effect`.
+
 `NeverCommittedErasure` (simulation by erasure) is only STATED — see its doc comment for what is missing.
 -/
 namespace HailVerif.C41
@@ -104,7 +108,60 @@ theorem uncommitted_invisible_partial (ops : List Op) (hok : HistOK init ops) : 
 theorem uncommitted_invisible_step (s : State) (hu : JobsUnique s) (hP : PendInv s) (hG : GroupsGate s) (op : Op)
     (hok : OpOK s op) : UncommittedInvisible (step s op).1 := by
   obtain ⟨h1, h2⟩ := inv_step s hu op hok hP hG
-  exact uncommittedInvisible_of h1 h2
+  exact uncommittedInvisible_of h1.1 h2
+
+/-- **Never touched.**  Under `OpOK`, a transaction carries every job row of a non-initial update that is still uncommitted
+afterwards over UNCHANGED: no `UPDATE jobs` matched it, so `jobs_after_update` did not fire for it (it entered no scheduling
+counter) and it entered no tally.  (`hP`, `hG`, `hu` hold in every state reached by an `OpOK` history: `inv_run`.) -/
+theorem uncommitted_rows_frozen (s : State) (hu : JobsUnique s) (hP : PendInv s) (hG : GroupsGate s) (op : Op)
+    (hok : OpOK s op) (x : Job) (hx : x ∈ s.jobs) (hc : updCommitted (step s op).1 x.batch x.update = false)
+    (h1 : x.update ≠ 1) : x ∈ (step s op).1.jobs :=
+  (inv_step s hu op hok hP hG).1.2 x hx hc h1
+
+/-- **Never tallied, never completing anything.**  A completion report — any outcome, any attempt — for a job of an
+uncommitted non-initial update is refused (rc 1 or 2) and changes no job row, no group row (tallies, `n_jobs`, state) and no
+batch row, in any state satisfying the invariant. -/
+theorem uncommitted_complete_no_effect (s : State) (hP : PendInv s) (b j : Nat) (att inst : Option Nat) (ns : JState)
+    (st e : Option Int) (r : String) (d : Nat) (job : Job) (hj : findJob s b j = some job)
+    (hc : updCommitted s job.batch job.update = false) (h1 : job.update ≠ 1) :
+    (step s (.complete b j att inst ns st e r d)).2 ≠ .ok 0 ∧
+    (step s (.complete b j att inst ns st e r d)).1.jobs = s.jobs ∧
+    (step s (.complete b j att inst ns st e r d)).1.groups = s.groups ∧
+    (step s (.complete b j att inst ns st e r d)).1.batches = s.batches := by
+  have hpend := hP job (mem_of_findJob hj).1 hc h1
+  show (complete s b j att inst ns st e r d).2 ≠ .ok 0 ∧ (complete s b j att inst ns st e r d).1.jobs = s.jobs ∧
+    (complete s b j att inst ns st e r d).1.groups = s.groups ∧ (complete s b j att inst ns st e r d).1.batches = s.batches
+  unfold complete
+  rcases findJobFk_cases s b j att inst with hn | hs
+  · rw [hn]
+    refine ⟨?_, rfl, rfl, rfl⟩
+    dsimp only; split_ifs <;> simp
+  · rw [hs, hj]
+    dsimp only
+    split_ifs with g1 g2 g3
+    · exact ⟨by simp, completePrep_jobs .., gu_groups (gu_completePrep ..), completePrep_batches ..⟩
+    · rw [hpend] at g2; simp at g2
+    · rw [hpend] at g3; simp [JState.terminal] at g3
+    · exact ⟨by simp, completePrep_jobs .., gu_groups (gu_completePrep ..), completePrep_batches ..⟩
+
+/-- **Never scheduled, even by a stray message.**  `schedule_job` / `mark_job_creating` / `mark_job_started` for a job of an
+uncommitted non-initial update change no job row (`schedule_job` answers rc 1, or fails on a foreign key). -/
+theorem uncommitted_schedule_no_effect (s : State) (hP : PendInv s) (b j a i : Nat) (ts : Int) (d : Nat) (job : Job)
+    (hj : findJob s b j = some job) (hc : updCommitted s job.batch job.update = false) (h1 : job.update ≠ 1) :
+    (step s (.schedule b j a i)).2 ≠ .ok 0 ∧ (step s (.schedule b j a i)).1.jobs = s.jobs ∧
+    (step s (.started b j a i ts d)).1.jobs = s.jobs ∧ (step s (.creating b j a i ts d)).1.jobs = s.jobs := by
+  have hpend := hP job (mem_of_findJob hj).1 hc h1
+  rcases findJobFk_cases s b j (some a) (some i) with hn | hs
+  · refine ⟨?_, ?_, ?_, ?_⟩
+    · show (schedule s b j a i).2 ≠ _; unfold schedule; rw [hn]; simp
+    · show (schedule s b j a i).1.jobs = _; unfold schedule; rw [hn]
+    · show (started s b j a i ts d).1.jobs = _; unfold started startLike; rw [hn]
+    · show (creating s b j a i ts d).1.jobs = _; unfold creating startLike; rw [hn]
+  · refine ⟨?_, ?_, ?_, ?_⟩
+    · show (schedule s b j a i).2 ≠ _; unfold schedule; rw [hs, hj]; simp [hpend]
+    · show (schedule s b j a i).1.jobs = _; unfold schedule; rw [hs, hj]; simp [hpend]
+    · show (started s b j a i ts d).1.jobs = _; unfold started startLike; rw [hs, hj]; simp [hpend]
+    · show (creating s b j a i ts d).1.jobs = _; unfold creating startLike; rw [hs, hj]; simp [hpend]
 
 /-- consequence for the counters' subject: under the same hypothesis a job of an uncommitted update is never in a state the
 scheduler counters count (Ready / Creating / Running) unless it belongs to update 1 -/
@@ -157,37 +214,68 @@ def keyOfUpdate (b u : Nat) : CKey → Bool
   | _ => false
 
 /-- what the rest of the system can observe: job rows of other updates, group rows not created by `u` (tallies, n_jobs,
-state), batch rows, and every counter except the rows private to `u` -/
+state), batch rows, and every counter except the rows private to `u` (every key occurring in either log; all other keys
+have value 0 in both) -/
 def ViewEq (b u : Nat) (s t : State) : Prop :=
   s.jobs.filter (fun x => !(decide (x.batch = b ∧ x.update = u))) = t.jobs.filter (fun x => !(decide (x.batch = b ∧ x.update = u))) ∧
   s.groups.filter (fun g => !(decide (g.batch = b ∧ g.update = some u))) =
     t.groups.filter (fun g => !(decide (g.batch = b ∧ g.update = some u))) ∧
   s.batches = t.batches ∧
-  ∀ k ∈ (s.ctr ++ t.ctr).map (·.1), keyOfUpdate b u k = false → get s.ctr k = get t.ctr k
+  ∀ k ∈ ((s.ctr ++ t.ctr).map (·.1)).eraseDups, keyOfUpdate b u k = false → get s.ctr k = get t.ctr k
 
 instance (b u : Nat) (s t : State) : Decidable (ViewEq b u s t) := by unfold ViewEq; infer_instance
 
 /-- update `u` of batch `b` is uncommitted in every state along the history -/
 def NeverCommitted (b u : Nat) (ops : List Op) : Prop :=
-  ∀ n, updCommitted (after init (ops.take n)) b u = false
+  ∀ n ∈ List.range (ops.length + 1), updCommitted (after init (ops.take n)) b u = false
 
-/-- the rest of the history does not name `u`'s rows: no driver / worker transaction targets a job of `u`; no bunch of
-another update names a job of `u` as a parent, reuses a job id of `u` (job ids are not validated against the reserved range:
-C08) or puts a job into a group created by `u`; and `u` has created no group when another update inserts groups (group ids
-must be consecutive: `maxGroupId`) -/
-def Separate (b u : Nat) (ops : List Op) : Prop :=
-  ∀ n op, ops[n]? = some op →
-    let s := after init (ops.take n)
-    let ofU (j : Nat) : Prop := ∃ x ∈ s.jobs, x.batch = b ∧ x.id = j ∧ x.update = u
-    match op with
-    | .schedule b' j _ _ | .creating b' j _ _ _ _ | .started b' j _ _ _ _ | .complete b' j _ _ _ _ _ _ _
-    | .unschedule b' j _ _ _ _ _ | .addResources b' j _ _ _ => b' = b → ¬ ofU j
-    | .heartbeat atts _ _ => ∀ a ∈ atts, a.1 = b → ¬ ofU a.2.1
-    | .insertJobs b' u' _ specs => b' = b → u' ≠ u → ∀ u2, findUpdate s b u' = some u2 → ∀ sp ∈ specs,
-        (∀ p ∈ jobParents u2 sp, ¬ ofU p) ∧ ¬ ofU (mkJob u2 b sp).id ∧
-        ∀ g ∈ s.groups, g.batch = b → g.id = (mkJob u2 b sp).group → g.update ≠ some u
-    | .insertGroups b' u' _ _ => b' = b → u' ≠ u → ∀ g ∈ s.groups, g.batch = b → g.update ≠ some u
-    | _ => True
+instance (b u : Nat) (ops : List Op) : Decidable (NeverCommitted b u ops) := by unfold NeverCommitted; infer_instance
+
+/-- job `j` of batch `b` belongs to update `u` -/
+def ofU (b u : Nat) (s : State) (j : Nat) : Prop := ∃ x ∈ s.jobs, x.batch = b ∧ x.id = j ∧ x.update = u
+
+instance (b u : Nat) (s : State) (j : Nat) : Decidable (ofU b u s j) := by unfold ofU; infer_instance
+
+/-- a bunch of another update `u'` stays clear of `u`: no parent in `u`, no job id of `u` reused (job ids are not validated
+against the reserved range: C08), no job put into a group created by `u` -/
+def insertJobsSeparate (b u : Nat) (s : State) (u' : Nat) (specs : List JobSpec) : Prop :=
+  match findUpdate s b u' with
+  | some u2 => ∀ sp ∈ specs, (∀ p ∈ jobParents u2 sp, ¬ ofU b u s p) ∧ ¬ ofU b u s (mkJob u2 b sp).id ∧
+      ∀ g ∈ s.groups, g.batch = b → g.id = (mkJob u2 b sp).group → g.update ≠ some u
+  | none => True
+
+instance (b u : Nat) (s : State) (u' : Nat) (specs : List JobSpec) : Decidable (insertJobsSeparate b u s u' specs) := by
+  unfold insertJobsSeparate; split <;> infer_instance
+
+/-- the transaction `op`, issued in state `s`, does not name `u`'s rows: a driver / worker transaction does not target a job
+of `u`; a bunch of another update is `insertJobsSeparate`; `u` has created no group when another update inserts groups (group
+ids must be consecutive: `maxGroupId`) -/
+def separateOp (b u : Nat) (s : State) : Op → Prop
+  | .schedule b' j _ _ => b' = b → ¬ ofU b u s j
+  | .creating b' j _ _ _ _ => b' = b → ¬ ofU b u s j
+  | .started b' j _ _ _ _ => b' = b → ¬ ofU b u s j
+  | .complete b' j _ _ _ _ _ _ _ => b' = b → ¬ ofU b u s j
+  | .unschedule b' j _ _ _ _ _ => b' = b → ¬ ofU b u s j
+  | .addResources b' j _ _ _ => b' = b → ¬ ofU b u s j
+  | .heartbeat atts _ _ => ∀ a ∈ atts, a.1 = b → ¬ ofU b u s a.2.1
+  | .insertJobs b' u' _ specs => b' = b → u' ≠ u → insertJobsSeparate b u s u' specs
+  | .insertGroups b' u' _ _ => b' = b → u' ≠ u → ∀ g ∈ s.groups, g.batch = b → g.update ≠ some u
+  | _ => True
+
+instance (b u : Nat) (s : State) (op : Op) : Decidable (separateOp b u s op) := by
+  cases op <;> unfold separateOp <;> infer_instance
+
+/-- every transaction of the history is `separateOp` in the state it is applied to -/
+def Separate (b u : Nat) : State → List Op → Prop
+  | _, [] => True
+  | s, op :: rest => separateOp b u s op ∧ Separate b u (step s op).1 rest
+
+instance (b u : Nat) : ∀ (s : State) (ops : List Op), Decidable (Separate b u s ops)
+  | _, [] => by unfold Separate; infer_instance
+  | s, op :: rest => by
+    unfold Separate
+    have := instDecidableSeparate b u (step s op).1 rest
+    infer_instance
 
 /-- **Stated, not proved.**  For a history satisfying `OpOK` throughout in which update `u` of batch `b` is never committed
 and whose other transactions do not name `u`'s rows (`Separate`), the observable part of the final state equals that of the
@@ -208,7 +296,7 @@ the proof on paper: without them the statement is false in the model (e.g. a lat
 "out-of-order" in the erased run because `maxGroupId` no longer counts `u`'s groups; `complete` on a Pending job of `u`
 still inserts an attempt and bills it). -/
 def NeverCommittedErasure : Prop :=
-  ∀ (ops : List Op) (b u : Nat), HistOK init ops → NeverCommitted b u ops → Separate b u ops →
+  ∀ (ops : List Op) (b u : Nat), HistOK init ops → NeverCommitted b u ops → Separate b u init ops →
     ViewEq b u (after init ops) (after init (eraseOps b u ops))
 
 /-- evidence on a concrete history: update 2 = {J ← P} is inserted and never committed while update 1 = {P, Q} runs to
@@ -224,8 +312,23 @@ def neverCommitted : List Op :=
    .complete 1 2 (some 11) (some 7) .Success (some 0) (some 1) "" 0,
    .cancelGroup 1 0, .cleanupStaging, .compact]
 
-example : HistOK init neverCommitted := by decide
+example : HistOK init neverCommitted ∧ NeverCommitted 1 2 neverCommitted ∧ Separate 1 2 init neverCommitted := by decide
 example : ViewEq 1 2 (after init neverCommitted) (after init (eraseOps 1 2 neverCommitted)) := by decide
+/-- another one: update 1 has a sub-group; update 2 (never committed) puts a Pending job into the sub-group; a job of the
+sub-group is scheduled, the sub-group is cancelled, the job is unscheduled and cancelled -/
+def neverCommitted2 : List Op :=
+  [.createBatch 1 1 100, .createUpdate 1 200 2 1 1, .insertGroups 1 1 1 [⟨1, some 0, 0⟩],
+   .insertJobs 1 1 1 [⟨1, [], [], none, 1, false, 1000, 0⟩, ⟨2, [], [1], some 0, 0, true, 500, 0⟩],
+   .commitUpdate 1 1,
+   .createUpdate 1 201 1 0 1,
+   .insertJobs 1 2 1 [⟨1, [2], [], some 1, 0, false, 250, 0⟩],
+   .newInstance 7 4000 true, .activate 7, .schedule 1 1 11 7,
+   .cancelGroup 1 1,
+   .unschedule 1 1 11 7 5 "cancelled" 0,
+   .complete 1 1 none none .Cancelled none none "cancelled" 0]
+
+example : HistOK init neverCommitted2 ∧ NeverCommitted 1 2 neverCommitted2 ∧ Separate 1 2 init neverCommitted2 := by decide
+example : ViewEq 1 2 (after init neverCommitted2) (after init (eraseOps 1 2 neverCommitted2)) := by decide
 -- with the defect (witness 1: P completes) the views differ: the erased run has no phantom ready job
 example : ¬ ViewEq 1 2 (after init witness1) (after init (eraseOps 1 2 witness1)) := by decide
 
